@@ -150,6 +150,7 @@ def select_cases(pid, spec, tier, seed):
     for i, c in enumerate(allc):
         c['id'] = i
         c['lang'] = bool(spec.get('lang'))
+        c['lang_anchor'] = (pid == 'C08')
     return allc, len(corpus)
 
 # ------------------------------------------------------------------------------------------
@@ -193,7 +194,7 @@ def classify(case, r, fail, st):
         w = fail['witness']; out_accepts = fail['out_accepts']
         if not out_accepts and w == [] and v.get('k4'):
             return 'K4'
-        if out_accepts and 'r' in fl and v.get('k1_merge'):
+        if out_accepts and 'r' in fl and v.get('k1_merge') and v.get('k1_trie_accepts_lang', True):
             return 'K1'
         if has_skew:
             return 'K3'
@@ -203,7 +204,7 @@ def classify(case, r, fail, st):
         # or the anchored build over-matches through trie widening while the anchor-free fallback is exact (K1)
         if fail['witness'] == [] and v.get('k4'):
             return 'K4'
-        if 'r' in fl and v.get('k1_merge'):
+        if 'r' in fl and v.get('k1_merge') and v.get('k1_trie_accepts_lang_anchor', True):
             return 'K1'
         return None
     if kind == 'find':
@@ -703,6 +704,37 @@ def run_property(pid, tier, seed):
     known_counts = {}
     undecided = 0
     incons = 0
+    # K1's class, second half: the over-matched string must already be accepted by the MODEL's trie (printed as a
+    # pattern by the driver, judged by PikeVM) — Proofs/MergeLang: the final language lies within the trie language,
+    # so an over-match the trie does not explain comes from somewhere else and is not K1
+    k1q = []
+    for c in allc:
+        r = impl.get(c['id']); mm = model.get(c['id'])
+        if r is None or mm is None or 'harness_panic' in r:
+            continue
+        for key in ('lang', 'lang_anchor'):
+            l = r.get('verdicts', {}).get(key)
+            if isinstance(l, dict) and 'witness' in l and mm.get('trie_pat') not in (None, '!ERR'):
+                k1q.append((c['id'], key, mm['trie_pat'], l['witness']))
+    if k1q:
+        from concurrent.futures import ThreadPoolExecutor
+        def shard(items):
+            inp = ''.join(json.dumps({'p': [int(x) for x in tp.strip('[]').split(',') if x.strip()], 'hs': [w]}) + '\n' for (_, _, tp, w) in items)
+            rc, outm, err = runner.sh([runner.GREXV, 'match'], inp=inp.encode())
+            return [json.loads(l) for l in outm.splitlines() if l.startswith('{')]
+        nsh = 16
+        parts = [k1q[i::nsh] for i in range(nsh)]
+        with ThreadPoolExecutor(nsh) as ex:
+            outs = list(ex.map(shard, parts))
+        resm = [None] * len(k1q)
+        okm = all(len(o) == len(pt) for o, pt in zip(outs, parts))
+        if okm:
+            for i in range(nsh):
+                for j, rm in enumerate(outs[i]):
+                    resm[i + j * nsh] = rm
+        if okm:
+            for (cid, key, _, _), rm in zip(k1q, resm):
+                impl[cid]['verdicts']['k1_trie_accepts_' + key] = bool(rm['full'] and rm['full'][0])
     for c in allc:
         r = impl.get(c['id'])
         if r is None or 'harness_panic' in r:
@@ -787,7 +819,7 @@ def run_property(pid, tier, seed):
             continue
         # a finding may show differently under different properties: an optional per-property witness
         bp = (kf.get('by_property') or {}).get(pid) or kf
-        c = dict(bp['witness']); c['id'] = 0; c['lang'] = True
+        c = dict(bp['witness']); c['id'] = 0; c['lang'] = True; c['lang_anchor'] = True
         r = runner.run_impl([c], threads=1).get(0, {})
         fs = []
         for f in ORACLES_ALL:
